@@ -110,6 +110,48 @@ func Project(e ast.Expr) ast.Expr {
 	return e
 }
 
+// ProjectLocal replaces `v.f` by the value given to field f in the composite
+// literal that is the only definition of the struct-valued local v (whose
+// fields are never assigned individually).
+func ProjectLocal(info *types.Info, scope ast.Node, e ast.Expr) ast.Expr {
+	sel, ok := ast.Unparen(e).(*ast.SelectorExpr)
+	if !ok || scope == nil {
+		return e
+	}
+	id, ok := ast.Unparen(sel.X).(*ast.Ident)
+	if !ok {
+		return e
+	}
+	v, ok := core.ObjOf(info, id).(*types.Var)
+	if !ok || v.IsField() {
+		return e
+	}
+	o, ok := SoleOrigin(info, scope, id)
+	if !ok || o.Expr == nil || o.Op != 0 || o.Range || o.Res > 0 {
+		return e
+	}
+	written := false
+	ast.Inspect(scope, func(n ast.Node) bool {
+		switch x := n.(type) {
+		case *ast.AssignStmt:
+			for _, l := range x.Lhs {
+				if ls, ok := ast.Unparen(l).(*ast.SelectorExpr); ok && IsObj(info, v)(ls.X) {
+					written = true
+				}
+			}
+		case *ast.UnaryExpr:
+			if x.Op == token.AND && IsObj(info, v)(x.X) {
+				written = true
+			}
+		}
+		return true
+	})
+	if written {
+		return e
+	}
+	return Project(&ast.SelectorExpr{X: o.Expr, Sel: sel.Sel})
+}
+
 // LocalClosure returns the function literal that the identifier fun denotes
 // when fun is a local variable with exactly one definition, a literal.
 func LocalClosure(info *types.Info, scope ast.Node, fun ast.Expr) *ast.FuncLit {
@@ -577,31 +619,92 @@ var curProg *core.Program
 func SetProgram(p *core.Program) { curProg = p }
 
 type wrapInfo struct {
-	conn, cmd, args int // parameter positions
+	conn, cmd, args int      // parameter positions (conn is -1 when the connection is a captured variable)
+	connExpr        ast.Expr // the captured connection (closures)
 	fatal           bool
 }
 
-var wrapMemo = map[*types.Func]*wrapInfo{}
+var wrapMemo = map[interface{}]*wrapInfo{}
 
-// sendWrapper recognises a pure forwarding wrapper around Conn.Send.
-func sendWrapper(f *types.Func) *wrapInfo {
-	if f == nil || curProg == nil || f.Pkg() == nil || !strings.HasPrefix(f.Pkg().Path(), core.Module) {
+// enclosingDecl finds the function declaration around pos.
+func enclosingDecl(pkg *types.Package, pos token.Pos) *ast.FuncDecl {
+	if curProg == nil || pkg == nil {
 		return nil
 	}
-	if w, ok := wrapMemo[f]; ok {
+	pk := curProg.All[pkg.Path()]
+	if pk == nil {
+		return nil
+	}
+	for _, f := range pk.Syntax {
+		if !(f.Pos() <= pos && pos < f.End()) {
+			continue
+		}
+		for _, d := range f.Decls {
+			if fd, ok := d.(*ast.FuncDecl); ok && fd.Pos() <= pos && pos < fd.End() {
+				return fd
+			}
+		}
+	}
+	return nil
+}
+
+// calleeHelper resolves the callee of call: a module function, or a closure
+// bound once to a local of the enclosing function.
+func calleeHelper(info *types.Info, call *ast.CallExpr) *Helper {
+	if curProg == nil {
+		return nil
+	}
+	if id, ok := ast.Unparen(call.Fun).(*ast.Ident); ok {
+		if v, ok := core.ObjOf(info, id).(*types.Var); ok && !v.IsField() {
+			if fd := enclosingDecl(v.Pkg(), v.Pos()); fd != nil {
+				if fl := LocalClosure(info, fd, id); fl != nil {
+					return &Helper{Body: fl.Body, Type: fl.Type, Info: info, Lit: fl}
+				}
+			}
+			return nil
+		}
+	}
+	f := core.CalleeFunc(info, call)
+	if f == nil || f.Pkg() == nil || !strings.HasPrefix(f.Pkg().Path(), core.Module) {
+		return nil
+	}
+	hf := curProg.FnOf(f)
+	if hf == nil || hf.Decl.Body == nil {
+		return nil
+	}
+	return &Helper{Body: hf.Decl.Body, Type: hf.Decl.Type, Recv: hf.Decl.Recv, Info: hf.Pkg.TypesInfo, Fn: hf}
+}
+
+// sendWrapper recognises a pure forwarding wrapper around Conn.Send: a
+// function `w(c redigo.Conn, cmd string, args ...interface{})`, or a closure
+// `func(cmd string, args ...interface{})` over a captured connection, whose
+// only use of a connection is one c.Send(cmd, args...).
+func sendWrapper(h *Helper) *wrapInfo {
+	if h == nil {
+		return nil
+	}
+	var key interface{} = h.Lit
+	if h.Fn != nil {
+		key = h.Fn.Obj
+	}
+	if w, ok := wrapMemo[key]; ok {
 		return w
 	}
-	wrapMemo[f] = nil
-	fn := curProg.FnOf(f)
-	if fn == nil || fn.Decl.Body == nil {
-		return nil
-	}
-	info := fn.Pkg.TypesInfo
+	wrapMemo[key] = nil
+	info := h.Info
 	var params []types.Object
-	for _, fl := range fn.Decl.Type.Params.List {
+	variadic := false
+	for _, fl := range h.Type.Params.List {
+		_, variadic = fl.Type.(*ast.Ellipsis)
 		for _, nm := range fl.Names {
 			params = append(params, info.Defs[nm])
 		}
+		if len(fl.Names) == 0 {
+			return nil
+		}
+	}
+	if !variadic {
+		return nil
 	}
 	idx := func(e ast.Expr) int {
 		for i, p := range params {
@@ -611,13 +714,9 @@ func sendWrapper(f *types.Func) *wrapInfo {
 		}
 		return -1
 	}
-	sig := f.Type().(*types.Signature)
-	if !sig.Variadic() || len(params) != sig.Params().Len() {
-		return nil
-	}
 	var send *ast.CallExpr
 	n := 0
-	core.InspectAll(fn.Decl.Body, func(m ast.Node) bool {
+	core.InspectAll(h.Body, func(m ast.Node) bool {
 		if call, ok := m.(*ast.CallExpr); ok {
 			for _, name := range []string{"Send", "Do", "Flush", "Receive", "Close"} {
 				if _, ok := ConnMethod(info, call, name); ok {
@@ -635,13 +734,25 @@ func sendWrapper(f *types.Func) *wrapInfo {
 	}
 	recv, _ := ConnMethod(info, send, "Send")
 	w := &wrapInfo{conn: idx(recv), cmd: idx(send.Args[0]), args: idx(send.Args[1])}
-	if w.conn < 0 || w.cmd < 0 || w.args != len(params)-1 {
+	if w.cmd < 0 || w.args != len(params)-1 {
 		return nil
+	}
+	if w.conn < 0 {
+		// a closure over the connection: the receiver is a variable declared outside the literal
+		id, ok := ast.Unparen(recv).(*ast.Ident)
+		v, _ := core.ObjOf(info, id).(*types.Var)
+		if !ok || h.Lit == nil || v == nil || v.IsField() || h.Lit.Pos() <= v.Pos() && v.Pos() < h.Lit.End() {
+			return nil
+		}
+		w.connExpr = recv
 	}
 	// the parameters are forwarded unchanged
 	for _, i := range []int{w.conn, w.cmd, w.args} {
+		if i < 0 {
+			continue
+		}
 		written := false
-		core.InspectAll(fn.Decl.Body, func(m ast.Node) bool {
+		core.InspectAll(h.Body, func(m ast.Node) bool {
 			switch x := m.(type) {
 			case *ast.AssignStmt:
 				for _, l := range x.Lhs {
@@ -665,24 +776,32 @@ func sendWrapper(f *types.Func) *wrapInfo {
 	}
 	// error handling: either the error is the wrapper's result, or every path
 	// on which it is non-nil ends in a no-return call
-	g := cfgq.Of(curProg, fn)
+	g := h.Graph(curProg)
 	fl := NewFlow(g)
 	sp, ok := g.Find(send)
 	if !ok {
 		return nil
 	}
-	returnsErr := sig.Results().Len() == 1 && cfgq.IsErrorType(sig.Results().At(0).Type())
-	switch {
-	case returnsErr:
-		// `return c.Send(...)` or `err := c.Send(..); ...; return err`: the caller judges the error
-		okRet := false
-		if ret, isRet := sp.Node().(*ast.ReturnStmt); isRet && len(ret.Results) == 1 && ast.Unparen(ret.Results[0]) == ast.Expr(send) {
-			okRet = true
+	nres := 0
+	var res0 types.Type
+	if h.Type.Results != nil {
+		for _, f := range h.Type.Results.List {
+			k := len(f.Names)
+			if k == 0 {
+				k = 1
+			}
+			nres += k
+			res0 = info.TypeOf(f.Type)
 		}
-		if !okRet {
+	}
+	switch {
+	case nres == 1 && cfgq.IsErrorType(res0):
+		// `return c.Send(...)`: the caller judges the error
+		ret, isRet := sp.Node().(*ast.ReturnStmt)
+		if !isRet || len(ret.Results) != 1 || ast.Unparen(ret.Results[0]) != ast.Expr(send) {
 			return nil
 		}
-	case sig.Results().Len() == 0:
+	case nres == 0:
 		as, isAs := sp.Node().(*ast.AssignStmt)
 		if !isAs || len(as.Lhs) != 1 {
 			return nil
@@ -699,7 +818,7 @@ func sendWrapper(f *types.Func) *wrapInfo {
 	default:
 		return nil
 	}
-	wrapMemo[f] = w
+	wrapMemo[key] = w
 	return w
 }
 
@@ -708,12 +827,18 @@ func SendOf(info *types.Info, call *ast.CallExpr) *SendSite {
 	if x, ok := ConnMethod(info, call, "Send"); ok {
 		return &SendSite{Call: call, Conn: x, Args: call.Args, Ellipsis: call.Ellipsis.IsValid()}
 	}
-	f := core.CalleeFunc(info, call)
-	w := sendWrapper(f)
+	h := calleeHelper(info, call)
+	w := sendWrapper(h)
 	if w == nil || len(call.Args) <= w.cmd || len(call.Args) <= w.conn {
 		return nil
 	}
-	s := &SendSite{Call: call, Conn: call.Args[w.conn], Fatal: w.fatal, Wrapper: f, Ellipsis: call.Ellipsis.IsValid()}
+	s := &SendSite{Call: call, Conn: w.connExpr, Fatal: w.fatal, Ellipsis: call.Ellipsis.IsValid()}
+	if h.Fn != nil {
+		s.Wrapper = h.Fn.Obj
+	}
+	if w.conn >= 0 {
+		s.Conn = call.Args[w.conn]
+	}
 	s.Args = append(s.Args, call.Args[w.cmd])
 	if len(call.Args) > w.args {
 		s.Args = append(s.Args, call.Args[w.args:]...)
